@@ -83,6 +83,9 @@ def catalogue():
         en = first[tk]
         mk = tk if tk != "Light" else "Text"   # message kind used for "matching" writes
         out.append((f"unknown-device>{tk}", new_vec(mk, "NOPE", vn, [one_child(mk, en)]), set()))
+        # device names that are "nothing" in one sense or another but name no device: nobody's state may change
+        for dn, dname in (("empty", ""), ("blank", " "), ("case", "dev"), ("padded", "DEV "), ("none-word", "None")):
+            out.append((f"{dn}-device-name>{tk}", new_vec(mk, dname, vn, [one_child(mk, en)]), set()))
         out.append((f"unknown-property>{tk}", new_vec(mk, "DEV", "NOPE_V", [one_child(mk, en)]), set()))
         out.append((f"unknown-element>{tk}", new_vec(mk, "DEV", vn, [one_child(mk, "NOPE")]), set()))
         out.append((f"valid+unknown-element>{tk}", new_vec(mk, "DEV", vn, [one_child(mk, en), one_child(mk, "NOPE")]), {(vn, en)}))
